@@ -750,8 +750,19 @@ func c15Worker(c *core.Collector, x *Ctx) {
 	attFullRead(c)
 	sessions := c.Counter("sessions")
 	tcpSessions := c.Counter("tcp_sessions")
-	addr, terr := att.StartTCP(attachment.WithFileEventerFunc(func() attachment.FileEventer { return &att.Recorder{} }))
+	// five attachment servers in this one process, one per dialect (WithActiveSafetyType), all serving at the same time
+	addrs := map[int]string{}
+	var terr error
+	for _, d := range gen.Dialects {
+		a, err := att.StartTCP(attachment.WithFileEventerFunc(func() attachment.FileEventer { return &att.Recorder{} }), attachment.WithActiveSafetyType(d))
+		if err != nil {
+			terr = err
+			break
+		}
+		addrs[int(d)] = a
+	}
 	run := func(p *attPlan, tcp bool) {
+		addr := addrs[p.Dialect]
 		c.Eval()
 		var viol [][2]string
 		var incon bool
@@ -788,7 +799,7 @@ func c15Worker(c *core.Collector, x *Ctx) {
 		if i%97 == 0 && c.WantSample() {
 			c.Sample(map[string]any{"dialect": p.Dialect, "files": p.Files, "partition": p.Mode, "alarm_id": p.AlarmID})
 		}
-		if i%10 == 0 && terr == nil && p.Dialect == int(consts.ActiveSafetyJS) { // the TCP server runs the default (JS) dialect
+		if i%7 == 0 && terr == nil { // the same session over loopback TCP against the server of its dialect
 			run(p, true)
 		}
 	})
